@@ -22,15 +22,15 @@ CHECKS = {
     "C02": dict(engines=["c02"], level="fault_enumeration",
                 quick=dict(batches=16, runs=1500, timeout=900),
                 thorough=dict(batches=64, runs=6000, timeout=5400)),
-    "C08": dict(engines=["c08"], level="exploration",
-                quick=dict(batches=16, runs=500, timeout=900),
-                thorough=dict(batches=64, runs=10000, timeout=5400)),
+    "C08": dict(engines=["c08"], level="exploration", race_engines=["c08"],
+                quick=dict(batches=16, runs=500, race_batches=16, race_runs=150, timeout=900),
+                thorough=dict(batches=64, runs=10000, race_batches=32, race_runs=1500, timeout=5400)),
     "C09": dict(engines=["c09"], level="exploration",
                 quick=dict(batches=16, runs=500, timeout=900),
                 thorough=dict(batches=64, runs=8000, timeout=5400)),
-    "C10": dict(engines=["c10"], level="exploration",
-                quick=dict(batches=16, runs=300, timeout=900),
-                thorough=dict(batches=64, runs=4000, timeout=5400)),
+    "C10": dict(engines=["c10"], level="exploration", race_engines=["c10"],
+                quick=dict(batches=16, runs=300, race_batches=16, race_runs=100, timeout=900),
+                thorough=dict(batches=64, runs=4000, race_batches=32, race_runs=1000, timeout=5400)),
     "C11": dict(engines=["c11", "c11cli"], level="exploration", race_engines=["c11"],
                 quick=dict(batches=16, runs=200, race_batches=16, race_runs=1200, timeout=900),
                 thorough=dict(batches=64, runs=3000, race_batches=64, race_runs=3000, timeout=5400)),
